@@ -148,6 +148,7 @@ type Effect struct {
 	CopyFrom  string // facts of subject CopyFrom also hold for CopyTo
 	CopyTo    string
 	DropMarks bool // mark facts are not copied (Unmark results)
+	Keep      *Fact // this fact, if it held before the node, survives the node's assignment kill
 }
 
 type FactSpec struct {
@@ -287,6 +288,21 @@ func itoa(n int) string {
 }
 
 func (f *FuncCFG) transfer(spec *FactSpec, s factSet, n ast.Node) factSet {
+	var kept []Fact
+	if spec.Effects != nil {
+		for _, e := range spec.Effects(n) {
+			if e.Keep != nil {
+				if _, ok := s[*e.Keep]; ok {
+					kept = append(kept, *e.Keep)
+				}
+			}
+		}
+	}
+	defer func() {
+		for _, k := range kept {
+			s[k] = struct{}{}
+		}
+	}()
 	// kills first
 	if keys := f.assignedKeys(n); len(keys) > 0 {
 		for k := range s {
